@@ -117,12 +117,32 @@ impl AEADBodyCodec {
     }
 
     pub fn decode_packet(&mut self, src: &mut BytesMut, session: &mut dyn Session) -> Result<Option<BytesMut>, aead::Error> {
-        let padding_length = self.next_padding_length();
-        let packet_length = self.decode_size(&mut src.split_to(self.chunk.size_bytes()), session.chunk_nonce())? - padding_length;
-        let mut packet_bytes = src.split_to(packet_length);
-        self.auth.open(&mut packet_bytes, session.decoder_nonce_mut())?;
-        src.advance(padding_length);
-        Ok(Some(packet_bytes))
+        loop {
+            match self.state {
+                DecodeState::Padding => {
+                    let padding = self.next_padding_length();
+                    self.state = DecodeState::Length(padding)
+                }
+                DecodeState::Length(padding) => {
+                    let size_bytes = self.chunk.size_bytes();
+                    if src.remaining() < size_bytes {
+                        return Ok(None);
+                    }
+                    let length = self.decode_size(&mut src.split_to(size_bytes), session.chunk_nonce())?;
+                    self.state = DecodeState::Body(padding, length)
+                }
+                DecodeState::Body(padding, length) => {
+                    if src.remaining() < length {
+                        return Ok(None);
+                    }
+                    let mut packet_bytes = src.split_to(length - padding);
+                    self.auth.open(&mut packet_bytes, session.decoder_nonce_mut())?;
+                    src.advance(padding);
+                    self.state = DecodeState::Padding;
+                    return Ok(Some(packet_bytes));
+                }
+            }
+        }
     }
 
     pub fn decode_payload(&mut self, src: &mut BytesMut, session: &mut dyn Session) -> Result<Option<BytesMut>, aead::Error> {
